@@ -1,10 +1,155 @@
-import PprofVerif.Spec.Prune
-/-! C11 — property theorems (under construction). -/
-namespace PV.Props.C11
-open PV PV.Prune
+import PprofVerif.Lemmas.PruneLemmas
+import Mathlib.Data.List.Forall2
+/-!
+# C11 — Frame-dropping rules remove only the frames they name
 
+Property theorems only (helper lemmas: `Lemmas/PruneLemmas.lean`).  They are about the executable
+model `Model/Prune.lean` of profile/prune.go (tied to the real code on every run by the
+correspondence check) and the frame-level rule `Spec/Prune.lean`:
+
+* a sample's stack is its list of frames, leaf first (`FilterSpec.frames`);
+* a frame matches when its function has a non-empty name and `q name` holds, where
+  `q = pruneName drop keep` (simplified name matches drop and not keep) for drop_frames/keep_frames
+  and `q = drop ∘ simplifyFunc` for prune_from; `q` is an arbitrary predicate in the theorems;
+* the rule for drop/keep: `pruneFrames` — scanning from the root, remove the first matching frame
+  that has a non-matching frame on its root side, and everything on its leaf side;
+* the rule for prune_from: `pruneFromFrames` — keep from the leaf-most matching frame rootwards.
+-/
+namespace PV.Props.C11
+open PV PV.Prune PV.PruneSpec
+open PV.FilterSpec hiding frameMatches
+
+/-- Applying drop/keep expressions changes neither the number of samples nor their values and
+labels (one-to-one, in order), nor the function and mapping tables. -/
+theorem prune_sample_count_values_labels (p : Profile) (q : Str → Bool) :
+    (pruneWith p q).samples.length = p.samples.length ∧
+    List.Forall₂ (fun s' s => s'.values = s.values ∧ s'.label = s.label ∧ s'.numLabel = s.numLabel ∧
+      s'.numUnit = s.numUnit) (pruneWith p q).samples p.samples ∧
+    (pruneWith p q).functions = p.functions ∧ (pruneWith p q).mappings = p.mappings ∧
+    (pruneWith p q).sampleType = p.sampleType := by
+  refine ⟨by simp [pruneWith], ?_, rfl, rfl, rfl⟩
+  simp only [pruneWith]
+  induction p.samples with
+  | nil => exact List.Forall₂.nil
+  | cons s r ih => exact List.Forall₂.cons ⟨rfl, rfl, rfl, rfl⟩ ih
+
+/-- The same for prune_from. -/
+theorem pruneFrom_sample_count_values_labels (p : Profile) (q : Str → Bool) :
+    (pruneFromWith p q).samples.length = p.samples.length ∧
+    List.Forall₂ (fun s' s => s'.values = s.values ∧ s'.label = s.label ∧ s'.numLabel = s.numLabel ∧
+      s'.numUnit = s.numUnit) (pruneFromWith p q).samples p.samples := by
+  refine ⟨by simp [pruneFromWith], ?_⟩
+  simp only [pruneFromWith]
+  induction p.samples with
+  | nil => exact List.Forall₂.nil
+  | cons s r ih =>
+    refine List.Forall₂.cons ?_ ih
+    unfold pruneFromSample
+    split <;> exact ⟨rfl, rfl, rfl, rfl⟩
+
+/-- A sample that had frames never becomes empty. -/
+theorem prune_nonempty (p : Profile) (hv : p.Valid) (q : Str → Bool) (s : Sample) (hs : s ∈ p.samples)
+    (h : frames p s ≠ []) :
+    frames (pruneWith p q) (pruneSample p q s) ≠ [] := by
+  apply prune_frames_ne_nil p (Filter.wf_of_valid hv) q s hs
+  intro h0
+  apply h
+  simp [frames, h0]
+
+/- FULL STATEMENT (false of the code, see `prune_spec_frames_fails_A/_B`):
+     theorem prune_spec_frames (p) (hv : p.Valid) (q) (s ∈ p.samples) :
+       frames (pruneWith p q) (pruneSample p q s) = pruneFrames (frameMatches p q) (frames p s)
+   The code decides per LOCATION while the rule speaks per FRAME.  It is proved below under the
+   per-sample hypothesis `PruneH`: scanning the sample from the root, every location before the first
+   location without any matching line matches on all of its lines.  The two ways `PruneH` can fail are
+   the recorded findings C11/prune/H-violated/partial-first-user-location (family A) and
+   C11/prune/H-violated/top-line-match (family B). -/
+
+/-- Under `PruneH` the result of drop/keep for a sample is exactly the frame-level rule: the frames
+strictly on the root side of the first frame (from the root) that matches and has a non-matching
+frame on its root side; root-side frames stay in order. -/
+theorem prune_spec_frames_partial (p : Profile) (hv : p.Valid) (q : Str → Bool) (s : Sample)
+    (hs : s ∈ p.samples) (hH : PruneH p q s) :
+    view (pruneWith p q) (pruneSample p q s) = specView s (pruneFrames (frameMatches p q) (frames p s)) := by
+  have := prune_frames_eq_spec p (Filter.wf_of_valid hv) q s hs hH
+  simp only [view, specView, this]
+  rfl
+
+/-- Family A: the full statement fails on the model (as on the code) — the root location is
+`um dm` with `dm` matching; the rule leaves `um`, the code leaves `um lf` (a hole). -/
+theorem prune_spec_frames_fails_A :
+    witnessA.Valid ∧ ¬ PruneH witnessA dropA ⟨[1, 2], [7], [], [], []⟩ ∧
+    frames (pruneWith witnessA dropA) (pruneSample witnessA dropA ⟨[1, 2], [7], [], [], []⟩) ≠
+      pruneFrames (frameMatches witnessA dropA) (frames witnessA ⟨[1, 2], [7], [], [], []⟩) := by
+  decide
+
+/-- Family B: location `d2 k1 d2` (root-most line matches, inner `k1` does not) followed by `d1`:
+the rule leaves `d2 k1`, the code leaves everything. -/
+theorem prune_spec_frames_fails_B :
+    witnessB.Valid ∧ ¬ PruneH witnessB dropB ⟨[1, 2], [7], [], [], []⟩ ∧
+    frames (pruneWith witnessB dropB) (pruneSample witnessB dropB ⟨[1, 2], [7], [], [], []⟩) ≠
+      pruneFrames (frameMatches witnessB dropB) (frames witnessB ⟨[1, 2], [7], [], [], []⟩) := by
+  decide
+
+/- FULL STATEMENT (false of the code, see `pruneFrom_spec_fails`):
+     theorem pruneFrom_spec (p) (q) (s) :
+       frames (pruneFromWith p q) (pruneFromSample p q s) = pruneFromFrames (frameMatches p q) (frames p s)
+   `PruneFrom` trims EVERY location with a matching line to start at its leaf-most match, also in
+   samples where that location lies on the root side of the sample's lowest match (finding
+   C11/prune_from/inlined-location-above-lowest-match). -/
+
+/-- Under `PruneFromH` (on the root side of the sample's leaf-most matching location every matching
+location matches on its leaf-most line) prune_from keeps the lowest matching frame and drops only
+what lies on its leaf side; without a match nothing changes. -/
+theorem pruneFrom_spec_partial (p : Profile) (q : Str → Bool) (s : Sample) (hH : PruneFromH p q s) :
+    view (pruneFromWith p q) (pruneFromSample p q s) =
+      specView s (pruneFromFrames (frameMatches p q) (frames p s)) := by
+  have := pruneFrom_frames_eq_spec p q s hH
+  have hd : ∀ s', pruneFromSample p q s = s' →
+      s'.values = s.values ∧ s'.label = s.label ∧ s'.numLabel = s.numLabel ∧ s'.numUnit = s.numUnit := by
+    intro s' h'
+    subst h'
+    unfold pruneFromSample
+    split <;> exact ⟨rfl, rfl, rfl, rfl⟩
+  obtain ⟨h1, h2, h3, h4⟩ := hd _ rfl
+  simp only [view, specView, this, h1, h2, h3, h4]
+
+/-- The full prune_from statement fails on the model (as on the code): leaf-first `[m a | b mm]`
+with prune_from=`^m` must stay `m a b mm`; `b` is lost. -/
+theorem pruneFrom_spec_fails :
+    witnessPF.Valid ∧ ¬ PruneFromH witnessPF startsWithM ⟨[1, 2], [7], [], [], []⟩ ∧
+    frames (pruneFromWith witnessPF startsWithM) (pruneFromSample witnessPF startsWithM ⟨[1, 2], [7], [], [], []⟩) ≠
+      pruneFromFrames (frameMatches witnessPF startsWithM) (frames witnessPF ⟨[1, 2], [7], [], [], []⟩) := by
+  decide
+
+/-- A profile without drop_frames is left untouched (whatever keep_frames says, whatever the
+regexp compiler does). -/
 theorem removeUninteresting_noexpr_id (compile : Str → Option Rx) (p : Profile) (h : p.dropFrames = []) :
     removeUninteresting compile p = .ok p := by
   simp [removeUninteresting, h]
+
+/-- With expressions, `RemoveUninteresting` is `Prune` with the expressions anchored as
+`^(…)$`; keep_frames is used only when non-empty. -/
+theorem removeUninteresting_anchored (compile : Str → Option Rx) (p : Profile) (drop : Rx)
+    (h : p.dropFrames ≠ []) (hd : compile (anchored p.dropFrames) = some drop) :
+    removeUninteresting compile p =
+      if p.keepFrames.isEmpty then .ok (prune p drop none)
+      else match compile (anchored p.keepFrames) with
+        | none => .err "failed to compile regexp"
+        | some keep => .ok (prune p drop (some keep)) := by
+  have he : p.dropFrames.isEmpty = false := by
+    cases hx : p.dropFrames with
+    | nil => exact absurd hx h
+    | cons _ _ => rfl
+  simp only [removeUninteresting, he, Bool.false_eq_true, ↓reduceIte, hd]
+  split
+  · rfl
+  · cases compile (anchored p.keepFrames) <;> rfl
+
+-- non-vacuity: the hypotheses are satisfiable by non-trivial values (a sample whose first user
+-- location is clean, with a match further towards the leaf)
+example : PruneH witnessA (fun n => n == [108, 102]) ⟨[1, 2], [7], [], [], []⟩ := by decide
+example : PruneFromH witnessPF (fun n => n == [109]) ⟨[1, 2], [7], [], [], []⟩ := by decide
+example : frames witnessB ⟨[1, 2], [7], [], [], []⟩ ≠ [] := by decide
 
 end PV.Props.C11
